@@ -190,7 +190,9 @@ def module_locations(bu, ob):
         if not (0 <= off.displacement <= blk.size):
             locs.append(("bad", "displacement-outside-block"))
             continue
-        locs.append((p[0], p[1] + off.displacement, p[1],
+        # (a zero-sized block stands in front of the block at its address)
+        locs.append((p[0], p[1] + off.displacement,
+                     p[1] - (0 if blk.size else 0.5),
                      [(d[0], list(d[1]), d[2].name if isinstance(
                          d[2], gtirb.Symbol) else None) for d in ds]))
     return locs
